@@ -238,4 +238,18 @@ to `toInternal` (`fromPb est`). -/
 theorem cache_estimate_path_src : profiledb_new_cache_args = "logger, c.CacheFilePath, c.ResponseSizeEstimate" ∧
     filecache_load_return = "toInternal(fc, s.respSzEst)" := by decide
 
+/-- Round 5.  `(*ScheduleSettings).toInternal` reads `weekly_range` and its seven days (Sunday
+first, the order of `time.Weekday`) through the generated nil-safe getters only — an absent message
+is the default one (`backendSchedule`; the pinned tree read `x.WeeklyRange` and `w.Sun …` directly,
+`backendScheduleOld`) — and its only early exits are the absent schedule, the unknown time zone,
+an absent day (skipped) and an invalid day. -/
+theorem backend_schedule_getters_src : backend_schedule_week_source = "x.GetWeeklyRange()" ∧
+    backend_schedule_days_source =
+      "[]*DayRange{ w.GetSun(), w.GetMon(), w.GetTue(), w.GetWed(), w.GetThu(), w.GetFri(), w.GetSat(), }" ∧
+    backend_schedule_conds = "x == nil | err != nil | d == nil | err != nil" := by decide
+
+/-- `refreshInALoop` recovers from a panic with `RecoverAndLog` (not `RecoverAndExit`), deferred
+for the whole loop (`workerEvs`: the first panic ends the loop, the process lives on). -/
+theorem refresh_worker_loop_calls_src : refresh_worker_loop_calls = "slogutil.RecoverAndLog,w.refresh" := by decide
+
 end Agd.Tie.C14
